@@ -40,7 +40,7 @@ class TaskGroup(TaskConstraint):
         Union[FixedDurationTask, ZeroDurationTask, VariableDurationTask]
     ]
     time_interval: Tuple[int, int] = Field(default=None)
-    time_interval_length: int = Field(default=0)
+    time_interval_length: Union[int, None] = Field(default=None)
 
     def __init__(self, **data) -> None:
         super().__init__(**data)
@@ -58,6 +58,8 @@ class TaskGroup(TaskConstraint):
             self._scheduled_assertion = [
                 self._end <= self._start + self.time_interval_length
             ]
+        else:
+            self._scheduled_assertion = []
 
         for task in self.list_of_tasks:
             self._scheduled_assertion += [
